@@ -17,6 +17,7 @@ import (
 
 	"verif/harness/lib/miniredis"
 	"verif/harness/lib/prng"
+	"verif/harness/lib/rdbgen"
 	"verif/harness/lib/wk"
 )
 
@@ -33,6 +34,8 @@ type c14agreeCase struct {
 	DBs    []int    `json:"source_dbs"`
 	Sender uint     `json:"sender_count"`
 	Tail   []string `json:"stream_tail,omitempty"`
+	Resume int      `json:"resumed_in_db,omitempty"` // the sender starts in this database, which holds the previous run's checkpoint
+	OldRun string   `json:"previous_run_id,omitempty"`
 }
 
 func c14agreeChild(raw json.RawMessage, scratch string) {
@@ -53,25 +56,40 @@ func c14agreeChild(raw json.RawMessage, scratch string) {
 		cfg := e2eCfg{Resume: true, TargetDB: -1, SenderCount: uint(rng.Pick(1, 3, 8, 1024)), SenderSize: 1 << 30, Parallel: 2}
 		cfg.apply()
 		cs := &c14agreeCase{Index: i, N: rng.Pick(8, 25, 60), DBs: [][]int{{0, 1}, {0, 1, 2, 3}, {2, 0, 15}}[rng.Intn(3)], Sender: cfg.SenderCount}
-		cmds := genStream(rng, streamOpts{N: cs.N, DBs: cs.DBs, Modelled: true, Tx: true, Keys: 4, StartDB: -1})
+		startDB := -1
+		if i%2 == 1 {
+			// a resumed start that ended in a full resync: the checkpoint of the previous run (other run id, old offset)
+			// sits in the database the sender starts in, and the source announced a new run id
+			cs.Resume, cs.OldRun = cs.DBs[len(cs.DBs)-1], "0ld0ld0ld0ld0ld0ld0ld0ld0ld0ld0ld0ld0ld0"
+			startDB = cs.Resume
+		}
+		cmds := genStream(rng, streamOpts{N: cs.N, DBs: cs.DBs, Modelled: true, Tx: true, Keys: 4, StartDB: startDB})
+		if startDB < 0 {
+			startDB = 0
+		}
 		for k := len(cmds) - 6; k < len(cmds); k++ {
 			if k >= 0 {
 				cs.Tail = append(cs.Tail, cmds[k].String())
 			}
 		}
 		wk.ChildCase(i, cs)
+		source := fmt.Sprintf("10.14.%d.%d:6379", i/250%250, i%250)
 		srv := miniredis.NewServer()
+		if cs.OldRun != "" {
+			srv.Put(cs.Resume, ckptKey, &rdbgen.Value{Kind: "hash", Hash: [][2][]byte{{[]byte(source + "-runid"), []byte(cs.OldRun)},
+				{[]byte(source + "-version"), []byte("1")}, {[]byte(source + "-offset"), []byte("4000")}}}, 0)
+			r.Count("agreement_streams_resumed_over_an_older_checkpoint", 1)
+		}
 		conn := srv.NewConn()
 		conn.BlockReceive = true
 		pr, pw := io.Pipe()
-		source := fmt.Sprintf("10.14.%d.%d:6379", i/250%250, i%250)
 		node := &slot.SyncNode{Id: 1400 + i%500, Source: source, Target: []string{tcp.Addr}, SlotLeftBoundary: -1, SlotRightBoundary: -1}
 		ds := dbSync.NewDbSyncer(node, -1, semaphore.NewWeighted(1))
 		const startOffset = 5000
-		ds.VerifRunIncr(bufio.NewReaderSize(pr, 1<<16), conn, 0, e2eRunID, startOffset, cfg.SenderCount, 65535)
+		ds.VerifRunIncr(bufio.NewReaderSize(pr, 1<<16), conn, startDB, e2eRunID, startOffset, cfg.SenderCount, 65535)
 		go pw.Write(streamBytes(cmds))
-		want, _ := stripPings(expectedForward(cmds, &cfg, 0))
-		ends := allowedEnds(cmds, &cfg)
+		want, _ := stripPings(expectedForward(cmds, &cfg, startDB))
+		ends := allowedEndsFrom(cmds, &cfg, startDB)
 		applied := func() int {
 			srv.Mu.Lock()
 			lg := append([]miniredis.Logged{}, srv.Log...)
